@@ -25,17 +25,17 @@ def sumw(Ki, Ko, ar):
     return P.Parameter.from_input(P.ConstantParameter(Ko, Ki * ar, value=1.0))
 
 
-def random_dag(rng, vars_, n_inner, K=1, bias_valid=0.5):
+def random_dag(rng, vars_, n_inner, K=1, bias_valid=0.5, input_factory=None):
     """arbitrary DAG of sum/hadamard/kronecker layers over univariate inputs: smoothness and decomposability
     are NOT enforced (bias_valid = probability of choosing inputs that keep the layer valid)"""
     layers, ins = [], {}
     scopes = {}
     for v in vars_:
         for _ in range(rng.choice([1, 1, 2])):
-            l = emb(v, K)
+            l = emb(v, K) if input_factory is None else input_factory(v, K)
             layers.append(l)
             scopes[l] = frozenset([v])
-    if rng.random() < 0.3:  # a constant (empty-scope) layer
+    if rng.random() < 0.3 and input_factory is None:  # a constant (empty-scope) layer
         l = L.ConstantValueLayer(K, value=P.Parameter.from_input(P.ConstantParameter(K, value=1.0)))
         layers.append(l)
         scopes[l] = frozenset()
